@@ -1,6 +1,7 @@
 package main
 
 import (
+	"go/token"
 	"golang.org/x/tools/go/ssa"
 	"strings"
 )
@@ -108,4 +109,60 @@ func resolveSingleDef(v ssa.Value) (*ssa.Call, int) {
 		v = st.Val
 	}
 	return nil, 0
+}
+
+// checkReceivedErrorsGateSuccess: an error value received from a channel (the verdict of
+// a goroutine the function started) gates the function's success: from the receive, a
+// success return is reachable only across the `err == nil` side of a test of that very
+// value (or the value is returned). A received error that is tested only together with
+// another error lets the other goroutine's failure pass as success.
+func checkReceivedErrorsGateSuccess(c *Check, rule string, rels ...string) int {
+	p := c.P
+	n := 0
+	for _, rel := range rels {
+		for _, f := range p.FuncsOfPkg(rel) {
+			if errResultIndex(f) < 0 {
+				continue
+			}
+			succ := blocksOfReturns(successReturns(f))
+			for _, b := range f.Blocks {
+				for _, ins := range b.Instrs {
+					u, ok := ins.(*ssa.UnOp)
+					if !ok || u.Op != token.ARROW || !isErrorType(u.Type()) {
+						continue
+					}
+					n++
+					c.SawFunc(f)
+					cut := func(bb *ssa.BasicBlock, ifi *ssa.If) (bool, bool) {
+						x, eq, ok := nilTest(ifi.Cond)
+						if !ok || x != ssa.Value(u) {
+							return false, false
+						}
+						// cut the edge on which the received error is nil
+						return eq, !eq
+					}
+					// returns that hand the received error back are not "success without the verdict"
+					tg := map[*ssa.BasicBlock]bool{}
+					for _, r := range returnsOf(f) {
+						if !succ[r.Block()] {
+							continue
+						}
+						carries := false
+						for _, rv := range r.Results {
+							if isErrorType(rv.Type()) && backSlice(rv, SliceOpt{CallArgs: true}).Vals[u] {
+								carries = true
+							}
+						}
+						if !carries {
+							tg[r.Block()] = true
+						}
+					}
+					res := gateWalkFrom(p, f, b, tg, cut, nil)
+					c.Ob(rule, "error received from a channel gates success@"+fnName(f), !res.Reached, p.Pos(u.Pos()),
+						"from the receive, success is reachable only across a test of that error being nil", res.Witness...)
+				}
+			}
+		}
+	}
+	return n
 }
